@@ -414,7 +414,10 @@ impl crate::Modulator for S2mClient {
       Ok((msg, _)) => match msg {
         Message::S2mAuthAck(params) => {
           if params.succeeded {
-            Ok(AuthResponse { result: AuthResult::Success { username: params.username.unwrap() } })
+            match params.username {
+              Some(username) => Ok(AuthResponse { result: AuthResult::Success { username } }),
+              None => Err(anyhow::anyhow!("authentication succeeded without a username")),
+            }
           } else {
             match params.challenge {
               Some(challenge) => Ok(AuthResponse { result: AuthResult::Continue { challenge } }),
